@@ -73,9 +73,11 @@ def optimizeShell (val : ν → Rat) (zero : ν) (sh : Shell ν) : Except String
   if sh.am.length > 1 ∨ sh.coefs.length < 2 then .ok sh else
   let pairs := rowColPairs val sh.coefs
   if ¬ (pairs.map (·.1)).Nodup then .error "Badly-formatted basis. Row makes duplicate shells" else
-  .ok { sh with coefs := sh.coefs.zipIdx.map fun pc =>
+  let zeroed := sh.coefs.zipIdx.map fun pc =>
           pc.1.zipIdx.map fun ce =>
-            if val ce.1 != 0 ∧ pairs.any (fun p => p.1 = ce.2 ∧ p.2 ≠ pc.2) then zero else ce.1 }
+            if val ce.1 != 0 ∧ pairs.any (fun p => p.1 = ce.2 ∧ p.2 ≠ pc.2) then zero else ce.1
+  -- a contraction made only of primitives that are also free is all zero now: dropped
+  .ok { sh with coefs := zeroed.filter fun col => col.any (fun c => val c != 0) }
 
 def optimizeGeneral [DecidableEq ν] (val : ν → Rat) (mgZero ogZero : ν) (skipSpdf : Bool)
     (shells : List (Shell ν)) : Except String (List (Shell ν)) :=
